@@ -195,6 +195,11 @@ func decodeKeyCharByUnicodeRune(buf []byte, cursor int64) ([]byte, int64, error)
 
 func decodeKeyCharByEscapedChar(buf []byte, cursor int64) ([]byte, int64, error) {
 	c := buf[cursor]
+	if c == nul {
+		// the input ends right after the backslash: stepping over the sentinel
+		// would let the matcher scan memory behind the buffer
+		return nil, 0, errors.ErrUnexpectedEndOfJSON("escaped string", cursor)
+	}
 	cursor++
 	switch c {
 	case '"':
